@@ -24,6 +24,7 @@
       followed by warm queries only never waits), `C14_kept_answer_answers_unchanged` (a kept answer never changes
       an answer).
 -/
+import Hs.Lemmas.NsRelLazy
 import Hs.Lemmas.NsCacheSys
 import Hs.Lemmas.NsCacheKept
 import Hs.Lemmas.NsSpec
@@ -178,6 +179,7 @@ def exWait : State := run exCfg (init exCfg cold exQss2) [1, 1, 1, 1, 1, 0, 0, 1
 example : blocked exCfg exWait 0 = true ∧ enabled exCfg exWait 0 = false ∧ enabled exCfg exWait 1 = true ∧
     blocked exCfg (step exCfg exWait 1) 0 = false := by decide +kernel
 
+
 /-! ## Callers that KEEP an answer (formal counterpart of known finding GUARD)
 
 `Namespace::supertypes_of` / `inheritance` return a read guard into the cache shard.  Everything above is about
@@ -253,6 +255,85 @@ theorem C14_deadlock_free_library (cfg : Cfg) (qss : List (List Query)) (c0 : Ca
   intro p hp
   obtain ⟨qs, _, rfl⟩ := List.mem_map.1 hp
   exact safe_runQs cfg qs
+
+/-! ## The association / implementation / relationship queries (C13 part 2)
+
+`Query` also has `assoc p a` (`associations`; `is`, `tag_on`, `tags` are instances), `impl k` (`implementation`),
+`fitsRoot w k` (`fits_marker/val/choice/entity`) and `rel ..` (`has_relationship` with the resolver's records, `fits`
+called where the code calls it).  Their programs touch the caches only through `inheritance`, `all_supertypes_of`
+and `fits`, so everything above - `C14_holds` for every interleaving of any number of threads, the discipline,
+deadlock freedom - covers them without a further word.  What their cache-free answers ARE: -/
+
+theorem part2_answers_are_C13 (cfg : Cfg) :
+    (∀ p a, pureAns cfg (.assoc p a) = .names (NsA.associations cfg.fuel cfg.x p a)) ∧
+    (∀ k, pureAns cfg (.impl k) = .pair (NsA.implementation cfg.fuel cfg.x k)) ∧
+    (∀ w k, pureAns cfg (.fitsRoot w k) = .bool (NsA.fitsRoot cfg.fuel cfg.x w k)) ∧
+    (∀ recs r term target s, pureAns cfg (.rel recs r term target s)
+        = .bool (hasRelationshipL cfg.fuel (recs.length + 1) cfg.x recs r term target s)) :=
+  ⟨fun _ _ => rfl, fun _ => rfl, fun _ _ => rfl, fun _ _ _ _ _ => rfl⟩
+
+/-- the configuration of a namespace built by `makeX` -/
+def cfgOf (rows : List NsA.RowX) (shard : Name → Nat) : Cfg :=
+  { ns := (NsA.makeX rows).ns, fuel := fuelFor (NsA.makeX rows).ns.defs, shard := shard, xd := (NsA.makeX rows).xd }
+
+/-- `has_relationship`, under every interleaving with any other queries of any number of threads: it answers (no
+endless walk over the resolver's records, whatever cycles their Refs form), and its answer is the function of
+C13 part 2 - the abstract loop of C09 over records classified up front -/
+theorem has_relationship_answer (rows : List NsA.RowX) (shard : Name → Nat) (recs : List NsA.RecX) (r : Name)
+    (term target : Option Name) (s : NsA.RecX) :
+    pureAns (cfgOf rows shard) (.rel recs r term target s)
+      = .bool (NsA.hasRelationship (fuelFor (NsA.makeX rows).ns.defs) (recs.length + 1) (NsA.makeX rows) recs r term target s) ∧
+    ∃ b, pureAns (cfgOf rows shard) (.rel recs r term target s) = .bool (.ok b) := by
+  have h1 : pureAns (cfgOf rows shard) (.rel recs r term target s)
+      = .bool (NsA.hasRelationship (fuelFor (NsA.makeX rows).ns.defs) (recs.length + 1) (NsA.makeX rows) recs r term target s) := by
+    show Ans.bool (hasRelationshipL (fuelFor (NsA.makeX rows).ns.defs) _ (NsA.makeX rows) recs r term target s) = _
+    rw [hasRelationshipL_eq rows _ (Nat.le_refl _)]
+  refine ⟨h1, ?_⟩
+  obtain ⟨b, hb⟩ := NsA.hasRelationship_total rows _ (Nat.le_refl _) recs (recs.length + 1) (Nat.lt_succ_self _) r term target s
+  exact ⟨b, by rw [h1, hb]⟩
+
+/-- the programs of these queries obey the guard discipline like the others -/
+theorem library_disciplined_part2 (cfg : Cfg) :
+    (∀ p a, DropsBeforeNext (associationsP cfg.fuel cfg.x p a)) ∧
+    (∀ k, DropsBeforeNext (implementationP cfg.fuel cfg.x k)) ∧
+    (∀ lf recs r term target s, DropsBeforeNext (hasRelationshipP cfg.fuel lf cfg.x recs r term target s)) :=
+  ⟨safe_associationsP _ _, safe_implementationP _ _, fun lf recs r term target s => safe_hasRelationshipP _ lf _ recs r term target s⟩
+
+/-! Non-vacuity: a miniature library (`tags` computed from `tagOn`; `containedBy` transitive), two threads asking
+`tags`, `implementation`, `fits_entity` and a transitive `has_relationship` over records whose Refs form a cycle,
+against cold caches under strict alternation: the cache-free answers. -/
+section
+open Hs.NsA
+def xRows : List RowX :=
+  [ { name := some nAssociation, tags := [] },
+    { name := some nRelationship, tags := [] },
+    { name := some nTagOn, tags := [(nIs, .list [some nAssociation])] },
+    { name := some nTags, tags := [(nIs, .list [some nAssociation]), (nComputed, .marker), (nReciprocalOf, .sym nTagOn)] },
+    { name := some nEntity, tags := [] },
+    { name := some ['e','q'], tags := [(nIs, .list [some nEntity]), (nMandatory, .marker)] },
+    { name := some ['a','h'], tags := [(nIs, .list [some ['e','q']])] },
+    { name := some ['f'], tags := [(nTagOn, .list [some ['e','q']])] },
+    { name := some ['c','b'], tags := [(nIs, .list [some nRelationship]), (nTransitive, .marker)] },
+    { name := some ['e','R'], tags := [(['c','b'], .sym ['e','q'])] } ]
+def xCfg : Cfg := cfgOf xRows (fun _ => 0)
+def xRecs : List RecX :=
+  [ { key := some ['1'], id := some ['1'], tags := [{ key := ['e','R'], ref := some ['2'] }, { key := ['i','d'], ref := some ['1'] }] },
+    { key := some ['2'], id := some ['2'], tags := [{ key := ['e','R'], ref := some ['1'] }, { key := ['i','d'], ref := some ['2'] }] } ]
+def xQss : List (List Query) :=
+  [ [.assoc ['a','h'] nTags, .rel xRecs ['c','b'] (some ['e','q']) (some ['2']) xRecs[0]!],
+    [.impl ['a','h'], .fitsRoot 3 ['a','h'], .rel xRecs ['c','b'] none (some ['9']) xRecs[0]!] ]
+
+example : pureAns xCfg (.assoc ['a','h'] nTags) = .names (.ok [['f']]) ∧
+    pureAns xCfg (.impl ['a','h']) = .pair (.ok ([['a','h']], [['e','q']])) ∧
+    pureAns xCfg (.fitsRoot 3 ['a','h']) = .bool (.ok true) ∧
+    pureAns xCfg (.rel xRecs ['c','b'] (some ['e','q']) (some ['2']) xRecs[0]!) = .bool (.ok true) ∧
+    pureAns xCfg (.rel xRecs ['c','b'] none (some ['9']) xRecs[0]!) = .bool (.ok false) := by decide +kernel
+
+example : let s := run xCfg (init xCfg cold xQss) (List.replicate 400 [0, 1]).flatten
+    answers s 0 = some (xQss[0]!.map (pureAns xCfg)) ∧ answers s 1 = some (xQss[1]!.map (pureAns xCfg)) ∧
+    finished s 0 = true ∧ finished s 1 = true := by decide +kernel
+end
+
 
 /-! ### the counterexample: two defs in one shard -/
 
